@@ -236,6 +236,40 @@ func child() {
 			ex, o = sess.Do(xctx, rq)
 		}
 		cancel()
+		// an initialize variant is also sent the way a NEW client would send it: without a session id
+		if kind.Stateful() && strings.Contains(rq.Label, "initialize") && rq.Label != "http|GET-live-session" {
+			o2 := rq.Opts
+			o2.NoSessionID = true
+			nctx, nc := context.WithTimeout(ctx, 15*time.Second)
+			ex = c.Post(nctx, rq.Body, o2)
+			nc()
+		}
+		// follow any session the server hands out in reaction to this input (e.g. an initialize it rejected):
+		// the ordinary next messages of a handshake, sent in THAT session, must not damage the server
+		if kind.IsStreamable() && ex.HTTP != nil && ex.HTTP.Sess != "" && ex.HTTP.Sess != c.SessionID {
+			h := map[string]string{"Mcp-Session-Id": ex.HTTP.Sess}
+			for _, follow := range []string{kit.InitializedBody, `{"jsonrpc":"2.0","id":"follow-ping","method":"ping"}`, kit.InitializedBody, `{"jsonrpc":"2.0","id":"follow-list","method":"tools/list"}`} {
+				fctx, fc := context.WithTimeout(ctx, 15*time.Second)
+				fx := c.Post(fctx, []byte(follow), kit.PostOpts{Headers: h, NoSessionID: true})
+				fc()
+				if fx.HTTP != nil && fx.HTTP.Status == 0 {
+					rep.Violation(fmt.Sprintf("C06|%s|%s|follow-up-in-issued-session|transport-error", rq.Label, kind), fmt.Sprintf("%s: follow-up message in the session issued for input %q got no HTTP answer: %s", kind, rq.Label, fx.HTTP.Err), nil)
+				}
+			}
+			fctx, fc := context.WithTimeout(ctx, 15*time.Second)
+			c.HP.Do(fctx, "DELETE", in.URL(), h, nil)
+			fc()
+			rep.Count("issued_sessions_followed", 1)
+			// a brand-new client must still be able to connect right now
+			if fresh, err := in.Dial(ctx); err == nil {
+				hctx, hc := context.WithTimeout(ctx, 15*time.Second)
+				if err := fresh.Handshake(hctx); err != nil {
+					rep.Violation(fmt.Sprintf("C06|new-client-not-served|%s|after=%s+handshake-messages", kind, rq.Label), fmt.Sprintf("%s: after input %q and the ordinary handshake messages in the session it was issued, a new client's initialize was not answered: %v", kind, rq.Label, err), nil)
+				}
+				hc()
+				fresh.Close()
+			}
+		}
 		rep.Eval(1)
 		if sym := judge(rq, o); sym != "" {
 			rep.Violation(fmt.Sprintf("C06|%s|%s|%s", rq.Label, kind, sym), fmt.Sprintf("%s: input class %q: %s", kind, rq.Label, sym),
@@ -263,7 +297,10 @@ func child() {
 		rep.Violation(fmt.Sprintf("C06|canary-other-client|%s", kind), why, nil)
 	}
 	if fresh, err := in.Dial(ctx); err == nil {
-		if err := fresh.Handshake(ctx); err != nil {
+		hctx, hc := context.WithTimeout(ctx, 15*time.Second)
+		err := fresh.Handshake(hctx)
+		hc()
+		if err != nil {
 			rep.Violation(fmt.Sprintf("C06|canary-fresh-connection|%s", kind), err.Error(), nil)
 		} else if ok, why := canary(ctx, fresh, "fresh"); !ok {
 			rep.Violation(fmt.Sprintf("C06|canary-fresh-connection|%s", kind), why, nil)
